@@ -11,3 +11,5 @@ import BS.Properties.C17
 #print axioms BS.Reader.pipeline_example
 #print axioms BS.Reader.multiBuggy_loses_rows
 #print axioms BS.Reader.headBuggy_writes_beyond
+#print axioms BS.Reader.scanner_spec
+#print axioms BS.Reader.scanner_over_script
